@@ -88,7 +88,14 @@ func (h *Header) Apply(hh http.Header) {
 		removeHeadersByName(hh, h.Name)
 		hh.Set(h.Name, "")
 	case Add:
-		hh.Add(h.Name, *h.Value)
+		// The field may be stored under a spelling of its name a RenameCase rule has set:
+		// the value goes after the values that are there, not under a second key.
+		if keys := keysEqualFold(hh, h.Name); len(keys) > 0 {
+			k := keys[len(keys)-1]
+			hh[k] = append(hh[k], *h.Value)
+		} else {
+			hh.Add(h.Name, *h.Value)
+		}
 	case RenameCase:
 		// RenameCase action is a workaround for some braindead HTTP software stacks
 		// which treat header names as case sensitive and which break when receiving
